@@ -197,6 +197,12 @@ pub fn family(w: u16, tier: Tier) -> Vec<Setup> {
                     }
                 }
             }
+            // REG prints the condition code: all four values
+            if w & 0xFF == 0x27 {
+                for cc in [0u8, 0b100, 0b010, 0b001] {
+                    out.push(Setup { cc, pc: 0xABCD, ..base.clone() });
+                }
+            }
             // PUTN: digit-count boundaries
             if w & 0xFF == 0x26 {
                 for v in [9u16, 10, 99, 100, 999, 1000, 9999, 10000, 32767] {
